@@ -163,13 +163,13 @@ Print Assumptions C07_h2_frame_within_limit.
 (* ---------- HTTP/3 frame parser and response head (Model/H3Frame.v of C05, Model/H3Limits.v) ---------- *)
 
 (* no fuel artefact: with any fuel above the input length the parser gives the same result *)
-Theorem C07_h3_frame_parse_total : forall f input,
-  length input < f -> H3Frame.h3_parse_next_fuel f input = H3Frame.h3_parse_next input.
+Theorem C07_h3_frame_parse_total : forall body f input,
+  length input < f -> H3Frame.h3_parse_next_fuel body f input = H3Frame.h3_parse_next_b body input.
 Proof. exact H3LimitsProofs.h3_frame_parse_total. Qed.
 Print Assumptions C07_h3_frame_parse_total.
 
-Theorem C07_h3_parse_only_consumes : forall input,
-  length (snd (H3Frame.h3_parse_next input)) <= length input.
+Theorem C07_h3_parse_only_consumes : forall body input,
+  length (snd (H3Frame.h3_parse_next_b body input)) <= length input.
 Proof. exact H3LimitsProofs.h3_parse_only_consumes. Qed.
 Print Assumptions C07_h3_parse_only_consumes.
 
@@ -180,8 +180,8 @@ Theorem C07_h3_settings_over_cap : forall input l,
 Proof. exact H3LimitsProofs.h3_settings_over_cap. Qed.
 Print Assumptions C07_h3_settings_over_cap.
 
-Theorem C07_h3_settings_cap : forall input s rest,
-  H3Frame.h3_parse_next input = (H3Frame.H3Ok (H3Frame.H3Settings s), rest) ->
+Theorem C07_h3_settings_cap : forall body input s rest,
+  H3Frame.h3_parse_next_b body input = (H3Frame.H3Ok (H3Frame.H3Settings s), rest) ->
   exists payload, (BigEndian.lenN payload <= H3Consts.h3SettingsMaxLen)%N /\
                   H3Frame.h3_parse_settings_payload payload = H3Frame.H3Ok s.
 Proof. exact H3LimitsProofs.h3_settings_cap. Qed.
@@ -202,19 +202,19 @@ Print Assumptions C07_h3_header_within_limit.
 
 (* an unknown (non-reserved) frame is skipped: the parser continues behind its payload, whatever
    its type and however it is encoded; a payload that is not all there is io.EOF *)
-Theorem C07_h3_unknown_frame_skipped : forall et el t p rest,
+Theorem C07_h3_unknown_frame_skipped : forall body et el t p rest,
   H3FrameProofs.is_enc et t -> H3FrameProofs.is_enc el (BigEndian.lenN p) ->
   t <> H3Consts.h3FrameData -> t <> H3Consts.h3FrameHeaders -> t <> H3Consts.h3FrameSettings ->
   ~ In t H3Consts.h3ReservedTypes ->
-  H3Frame.h3_parse_next (et ++ el ++ p ++ rest) = H3Frame.h3_parse_next rest.
+  H3Frame.h3_parse_next_b body (et ++ el ++ p ++ rest) = H3Frame.h3_parse_next_b body rest.
 Proof. exact H3FrameProofs.h3_unknown_frame_skipped. Qed.
 Print Assumptions C07_h3_unknown_frame_skipped.
 
-Theorem C07_h3_unknown_frame_truncated : forall et el t l rest,
+Theorem C07_h3_unknown_frame_truncated : forall body et el t l rest,
   H3FrameProofs.is_enc et t -> H3FrameProofs.is_enc el l ->
   t <> H3Consts.h3FrameData -> t <> H3Consts.h3FrameHeaders -> t <> H3Consts.h3FrameSettings ->
   ~ In t H3Consts.h3ReservedTypes -> (BigEndian.lenN rest < l)%N ->
-  H3Frame.h3_parse_next (et ++ el ++ rest) = (H3Frame.H3Err H3Frame.H3EOF, []).
+  H3Frame.h3_parse_next_b body (et ++ el ++ rest) = (H3Frame.H3Err (H3Frame.trunc_err body), []).
 Proof. exact H3FrameProofs.h3_unknown_frame_truncated. Qed.
 Print Assumptions C07_h3_unknown_frame_truncated.
 
